@@ -232,6 +232,37 @@ def _state_names(idx):
     raise AnchorVanished("share state constants not found in %s" % COMMON)
 
 
+def _notifies(state_names):
+    def p(n):
+        for c in node_calls(n):
+            if call_tail(c) == "notify":
+                st = kwarg(c, "state") or arg(c, 0)
+                if isinstance(st, ast.Name) and st.id in state_names:
+                    return True
+        return False
+    return p
+
+def _observer_loops(fn, over, state_names):
+    """for-loops whose iterable (after alias resolution) is `over` and whose body notifies one of the states
+    on the loop variable."""
+    cfg = fn.cfg()
+    fxx = _fnorm(fn)
+    out = []
+    for h in cfg.nodes:
+        if h.kind != "iter" or not isinstance(h.ast.target, ast.Name):
+            continue
+        if over is not None and fxx.norm(h, h.ast.iter) != over and attr_path(h.ast.iter) != over:
+            continue
+        var = h.ast.target.id
+        body_notifies = [c for st in h.ast.body for c in own_nodes(st) if isinstance(c, ast.Call)
+                         and call_tail(c) == "notify" and attr_path(c.func.value) == var]
+        body_notifies = [c for c in body_notifies if isinstance(kwarg(c, "state") or arg(c, 0), ast.Name)
+                         and (kwarg(c, "state") or arg(c, 0)).id in state_names]
+        if body_notifies:
+            out.append(h)
+    return out
+
+
 # --------------------------------------------------------------------- rules
 def run(ctx: Context):
     idx = ctx.idx
@@ -445,35 +476,7 @@ def run(ctx: Context):
         r.site(fl, None, "DEAD to all observers")
         _must_pass(r, fl, _stores_const("self._alive", False), "clearing _alive")
 
-        def notifies(state_names):
-            def p(n):
-                for c in node_calls(n):
-                    if call_tail(c) == "notify":
-                        st = kwarg(c, "state") or arg(c, 0)
-                        if isinstance(st, ast.Name) and st.id in state_names:
-                            return True
-                return False
-            return p
-
-        def observer_loops(fn, over, state_names):
-            """for-loops whose iterable (after alias resolution) is `over` and whose body notifies one of the states
-            on the loop variable."""
-            cfg = fn.cfg()
-            fxx = _fnorm(fn)
-            out = []
-            for h in cfg.nodes:
-                if h.kind != "iter" or not isinstance(h.ast.target, ast.Name):
-                    continue
-                if over is not None and fxx.norm(h, h.ast.iter) != over and attr_path(h.ast.iter) != over:
-                    continue
-                var = h.ast.target.id
-                body_notifies = [c for st in h.ast.body for c in own_nodes(st) if isinstance(c, ast.Call)
-                                 and call_tail(c) == "notify" and attr_path(c.func.value) == var]
-                body_notifies = [c for c in body_notifies if isinstance(kwarg(c, "state") or arg(c, 0), ast.Name)
-                                 and (kwarg(c, "state") or arg(c, 0)).id in state_names]
-                if body_notifies:
-                    out.append(h)
-            return out
+        notifies, observer_loops = _notifies, _observer_loops
 
         outer = [h for h in fl.cfg().nodes if h.kind == "iter" and attr_path(h.ast.iter) == "self._requested_blocks"]
         if not outer:
